@@ -50,7 +50,7 @@ STUBS = [
 ]
 OUTSIDE = [
     "IEEE rounding of time differences, NaN and infinite times (real arithmetic; inputs assumed finite)",
-    "textual numpy.* expressions and time files (concrete eval / file I/O)",
+    "textual numpy.* expressions and time files are exercised on every accepted path witness (concrete), not symbolically",
 ]
 ASSUMPTIONS = ["readout times, start time and bucket values are finite reals"]
 EXPLANATION = (
@@ -364,7 +364,52 @@ def fidelity_loop(kwargs, w):
     c_pf = [r["pixel"].ravel().tolist() for r in firsts]
     c_pl = [r["pixel_final"].ravel().tolist() for r in lasts]
     ok = close(c_clock, nums(obs["clock"]), 1e-6) and close(c_pf, nums(obs["pixel_first"]), 1e-6) and close(c_pl, nums(obs["pixel_final"]), 1e-6)
-    return ok, {"concrete_clock": c_clock, "symbolic_clock": nums(obs["clock"])}
+    detail = {"concrete_clock": c_clock, "symbolic_clock": nums(obs["clock"])}
+    if ok and via == "ctor" and flags == "all":
+        # the same schedule given as a textual numpy expression and as a times file must give the same clock
+        alt = _alternative_sources(n, ts, s, nd, prior, writes, fl)
+        for name, clk in alt.items():
+            if not close(clk, c_clock, 1e-9):
+                ok = False
+                detail["source_" + name] = clk
+    return ok, detail
+
+
+def _alternative_sources(n, ts, s, nd, prior, writes, fl):
+    import os
+    import tempfile
+
+    import numpy as np
+
+    from pyxel.exposure import Readout
+    from pyxel.exposure import exposure as ex
+
+    out = {}
+    tmp = tempfile.mkdtemp(prefix="vx_c02_")
+    path = os.path.join(tmp, "times.npy")
+    np.save(path, np.array(ts, dtype=float))
+    try:
+        for name, kw in (("numpy_expression", {"times": "numpy.array(" + repr([float(t) for t in ts]) + ")"}), ("file", {"times_from_file": path})):
+            proc = _processor()
+            det = proc.detector
+            recs = []
+
+            def hook(d, tag, kwargs, rec):
+                if tag == "first":
+                    recs.append([float(d.time), float(d.time_step), float(d.absolute_time), d.pipeline_count])
+                elif tag == "write":
+                    d.image.array = np.zeros(SHAPE, dtype=np.uint16)
+
+            vxprobes.reset(hook)
+            try:
+                ex.run_pipeline(processor=proc, readout=Readout(start_time=s, non_destructive=nd, **kw), outputs=None, debug=False, with_inherited_coords=False)
+            finally:
+                vxprobes.reset(None)
+            out[name] = recs
+    finally:
+        os.remove(path)
+        os.rmdir(tmp)
+    return out
 
 
 # ------------------------------------------------------------------------------------------
